@@ -77,6 +77,25 @@ CHECKS.update(
     }
 )
 
+CHECKS.update(
+    {
+        "C14": (
+            "Hypothesis-generated universes/dates/parameters per selection algo vs an independent reference on raw arrays (validity predicate for ranked selection)",
+            "For each of the 13 selection/statistic algos, generated universes with late listings, NaN gaps, zero/negative prices and ties, generated prior temp contents and all parameter "
+            "combinations; temp['selected']/temp['stat'] right after the call is compared with a reference that never touches pandas windows.",
+            "include_no_data=True disables both tradability filters; look-back windows at least as long as the largest calendar gap; frames only name universe tickers.",
+            "5/C14",
+        ),
+        "C15": (
+            "Hypothesis-generated selections/windows/limits per weighting algo vs documented relations recomputed independently with numpy",
+            "For each of the 12 weighting algos, generated clean price histories with distinct volatilities, selections of size 0/1/many, windows, lags, limits and live portfolios; the documented "
+            "relation (1/n, inv-vol product constant, equal risk contributions, cap/total/proportions, delta limit, ex-ante vol == target on every call of a multi-date sequence, PTE trigger) is recomputed independently.",
+            "WeighMeanVar optimality is not checked; ERC within 2% of the equal share; ffn's slsqp ERC variant and degenerate covariances are discarded; one open finding in the ffn dependency (LimitWeights, zero remainder).",
+            "5/C15",
+        ),
+    }
+)
+
 NOT_YET = {}
 
 ALL = ["C%02d" % i for i in range(1, 21)]
